@@ -304,6 +304,11 @@ func c10QueriesRaw(thorough bool) []string {
 		`max by (l) (sum by (l, m) (a))`, `sum by (l) (a) + 1`, `min by (l) (a) + on (l) group_right a`, `sum(a) + sum(b)`, `scalar(sum(a))`,
 		`sum by (l) (a @ 45.000)`, `sum by (l) (a offset 30s)`, `count(a > 2)`, `sum by (l) (abs(a))`, `abs(sum by (l) (a))`, `avg(a) + count(a)`,
 	}
+	// mixtures of a pushed-down part with a part that stays on the coordinator (a function
+	// with a literal argument is not distributed), in both operand orders
+	qs = append(qs, `sum by (l) (a) + on (l) group_left clamp_min(b, 0)`, `clamp_min(b, 0) + on (l) group_right sum by (l) (a)`, `clamp_min(a, 2)`,
+		`sum by (l) (a) / on (l) group_left clamp_max(b, 100)`, `max(a) + scalar(clamp_min(b{l="0"}, 0))`, `clamp(a, 0, 100) + on (l, m) sum by (l, m) (a)`,
+		`sum by (l) (a) + on (l) group_left (b * 2)`, `(b * 2) + on (l) group_right sum by (l) (a)`)
 	// every aggregation x every grouping kind, bare and under one more operator
 	for _, g := range []string{"", "by (l)", "without (m)", "without ()", "by (l, m)", "by (z)"} {
 		for _, op := range gen.SimpleAgg {
